@@ -307,6 +307,16 @@ func (rt *runtime) convertNumeric(v Value, t reflect.Type) reflect.Value {
 	panic(rt.panicTypeError(fmt.Sprintf("unsupported type %v -> %v for numeric conversion", val.Type(), t)))
 }
 
+// panicConversionError raises a conversion error reported by toReflectValue or
+// stringToReflectValue as a script-catchable RangeError / TypeError.
+func (rt *runtime) panicConversionError(err error) *exception {
+	msg := err.Error()
+	if strings.HasPrefix(msg, "RangeError: ") {
+		return rt.panicRangeError(strings.TrimPrefix(msg, "RangeError: "))
+	}
+	return rt.panicTypeError(strings.TrimPrefix(msg, "TypeError: "))
+}
+
 func fieldIndexByName(t reflect.Type, name string) []int {
 	for t.Kind() == reflect.Ptr {
 		t = t.Elem()
